@@ -238,7 +238,11 @@ class World:
 
     def _UpdateOk(self, act):
         name = act["m"]
-        Fn, L, dt = self._update(name, act["fl"], act["par"], act.get("cb"), self.F[name])
+        # The client passes the reference deformation gradient of the mineral's flow path (a
+        # function of the path only), not the previously returned one: returned values of
+        # different minerals agree only to solver tolerance, and bit-for-bit comparisons across
+        # interleavings need bit-identical inputs.  The returned F is still checked (C06).
+        Fn, L, dt = self._update(name, act["fl"], act["par"], act.get("cb"), self.Fexp[name].copy())
         self._after_ok(name, Fn, L, dt)
 
     _UpdateRejected = _UpdateOk
@@ -255,7 +259,7 @@ class World:
             Fn = pd.update_all(
                 [self.minerals[x] for x in ms],
                 make_params(act["par"]),
-                self.F[ms[0]],
+                self.Fexp[ms[0]].copy(),
                 lambda t, x: L,
                 (t0, t0 + dt, lambda t: np.zeros(3)),
             )
@@ -514,7 +518,14 @@ def budget(n, strain):
 def replay_behaviour(beh, scratch_dir, comparator, tid, events, n_override=None, rate=1.0, fcheck=True):
     """Run one behaviour (list of projected spec states, first = initial) on real objects."""
     w = World(scratch_dir, n_override=n_override, rate=rate)
-    seqno = 0
+    # pre-built minerals: replay their construction, compare once against the initial state
+    pre = beh[0].get("pre") or []
+    for k, a in enumerate(pre):
+        lens_before = {name: len(m.orientations) for name, m in w.minerals.items()}
+        err = w.do(a)
+        events.append(w.event(tid, a, err, lens_before))
+        if k == len(pre) - 1:
+            comparator.compare(dict(beh[0], err="None"), w.project(), w, a, err, 0)
     for step, st in enumerate(beh[1:], start=1):
         act = st["act"]
         lens_before = {name: len(m.orientations) for name, m in w.minerals.items()}
@@ -588,3 +599,71 @@ def validate_trace(events, scratch_dir, timeout=900):
         raise MachineryError("trace specification did not consume the whole trace:\n" + res.output[-3000:])
     rejects = sorted(set(rejects))
     return rejects, res
+
+
+# ---------------------------------------------------------------- shared driver for Layer-B checks
+TRACE_CLAUSES = {
+    "C07": ("update-accepted-where-spec", "update-raised", "failed-update-touched-history", "wrong-error-class", "null-forcing-changed-content"),
+    "C01": ("history-rewritten", "not-one-snapshot-per-update", "snapshot-shape", "snapshot-not-finite", "negative-volume", "volumes-do-not-sum-to-1", "orientation-entry-outside-unit-interval", "orientation-left-handed", "orthonormality-beyond-budget"),
+    "C17": ("loaded-state-differs-from-archive", "archive-differs-after-save", "corrupt-save-not-refused", "corrupt-save-wrote", "no-spec-action-LoadBadName"),
+    "C08": ("update-all-post-state-differs",),
+}
+
+
+def run_behaviours(chk, prop, behs, *, n_override=None, rate=1.0, fcheck=True, sig_extra=None):
+    """Replay behaviours, validate the recorded calls with the trace spec, and report the
+    mismatches / rejections whose clause belongs to `prop`.  Returns (events, comparator)."""
+    from harness.common import scratch
+
+    comp = Comparator()
+    events = []
+    with scratch() as d:
+        for tid, b in enumerate(behs):
+            sub = d / f"b{tid}"
+            sub.mkdir()
+            replay_behaviour(b, sub, comp, tid, events, n_override=n_override, rate=rate, fcheck=fcheck)
+            chk.count(("beh", json.dumps([s["act"] for s in b[1:]], sort_keys=True)))
+            import shutil
+
+            shutil.rmtree(sub, ignore_errors=True)
+        for p, clause, detail in comp.mismatches:
+            if p != prop:
+                chk.skip(f"foreign-mismatch-{p}-{clause}")
+                continue
+            act = detail.get("act", {})
+            sig = dict(level="replay", clause=clause, action=act.get("a"))
+            if clause == "outcome":
+                sig["got"] = detail.get("got")
+                sig["flow"] = act.get("fl")
+            if clause.startswith("config-"):
+                sig["field"] = clause[7:]
+            if sig_extra:
+                sig.update(sig_extra(detail))
+            chk.violation(sig, f"Layer-B replay: {clause}: {json.dumps(detail, default=str)[:400]}", detail)
+        rejects, tr = validate_trace(events, d)
+        chk.add_tlc("MineralTrace", tr, f"{len(events)} recorded calls of {len(behs)} behaviours")
+        chk.cov["traces_validated_against_impl"] += len(behs)
+        for tid, line, clause in rejects:
+            if clause.startswith(TRACE_CLAUSES[prop]):
+                ev = events[line - 1]
+                cfg = ev["obs"].get(ev.get("m"), {}).get("cfg", {}) if "m" in ev else {}
+                sig = dict(level="trace", clause=clause.split("-where")[0], ev=ev["ev"], regime=cfg.get("regime"))
+                chk.violation(sig, f"trace spec rejected call {line} (trace {tid}, {ev['ev']}): {clause}", dict(event=ev))
+            else:
+                chk.skip("foreign-reject-" + clause)
+    for k, v in comp.notes.items():
+        chk.cov.setdefault("replay_notes", {})[k] = chk.cov.get("replay_notes", {}).get(k, 0) + v
+    return events, comp
+
+
+def corrupt_and_validate(events, mutate):
+    """Negative control helper: apply `mutate(events_copy)` -> prefix length, validate, return clauses."""
+    from harness.common import scratch
+
+    bad = json.loads(json.dumps(events))
+    upto = mutate(bad)
+    if upto is None:
+        return None
+    with scratch() as d:
+        rj, _ = validate_trace(bad[:upto], d)
+    return [c for _, _, c in rj]
